@@ -172,3 +172,82 @@ def _run_generic(job):
         return ("survived", "%s:%d %s [%s] %s" % (rel, lineno, qn, kind, descr))
     finally:
         shutil.rmtree(d, ignore_errors=True)
+
+
+def twin_sample_for_property(prop, sites, seed=0, n=32, jobs=16, src_root="/repo"):
+    """Behaviour-preserving rewrites (generic_twins.py) and single local renames of the functions the property's obligations
+    mention; every one of them must leave the property's rules silent.  -> dict(n, silent, alarms=[...])"""
+    import concurrent.futures as cf
+    import json
+
+    from .generic_twins import twins_of
+
+    work = []
+    bysrc = {}
+    here = os.path.dirname(os.path.dirname(os.path.abspath(__file__)))
+    try:
+        locs = json.load(open(os.path.join(here, "rules", "tables", "locals.json")))
+    except FileNotFoundError:
+        locs = {}
+    for rel, qn in sorted(set(sites)):
+        path = os.path.join(src_root, rel)
+        if not os.path.exists(path):
+            continue
+        if rel not in bysrc:
+            s = open(path).read()
+            bysrc[rel] = (s, dict(qualnames(ast.parse(s))))
+        s, qs = bysrc[rel]
+        fn = qs.get(qn)
+        if fn is None:
+            continue
+        for m in twins_of(s, fn):
+            if m[1] != "comment":
+                work.append(("rewrite", rel, qn) + m)
+        for name in sorted(locs.get(os.path.basename(rel)[:-3], {}).get(qn, {})):
+            if name != fn.name:
+                work.append(("rename", rel, qn, fn.lineno, "rename", None, name, "local `%s` renamed" % name))
+    rnd = random.Random("twins-%s-%s" % (prop, seed))
+    rnd.shuffle(work)
+    work = work[:n]
+    out = {"n": len(work), "silent": 0, "alarm": 0, "no_compile": 0, "alarms": []}
+    if not work:
+        return out
+    with cf.ProcessPoolExecutor(max_workers=min(jobs, len(work))) as ex:
+        for r in ex.map(_run_twin, [(prop, src_root) + w for w in work]):
+            out[r[0]] += 1
+            if r[0] == "alarm":
+                out["alarms"].append(r[1])
+    return out
+
+
+def _run_twin(job):
+    from . import runner
+
+    prop, src_root, mode, rel, qn, lineno, kind, pos, repl, descr = job
+    d = runner.make_scratch(src_root)
+    try:
+        p = os.path.join(d, rel)
+        src = open(p).read()
+        if mode == "rename":
+            span = runner._func_span(src, qn)
+            if span is None:
+                return ("no_compile", "")
+            lines = src.split("\n")
+            seg, cnt = runner.rename_local_tokens("\n".join(lines[span[0] - 1 : span[1]]), repl, repl + "_rn")
+            new = "\n".join(lines[: span[0] - 1]) + ("\n" if span[0] > 1 else "") + seg + "\n" + "\n".join(lines[span[1] :])
+        else:
+            new = apply(src, pos, repl)
+        try:
+            ast.parse(new)
+        except SyntaxError:
+            return ("no_compile", "")
+        open(p, "w").write(new)
+        try:
+            rc, findings = runner.analyse(prop, d)
+        except Exception as e:
+            return ("alarm", "%s %s [%s] %s -> checker crashed: %r" % (rel, qn, kind, descr, e))
+        if rc == 0:
+            return ("silent", "")
+        return ("alarm", "%s:%d %s [%s] %s -> rc=%d %s" % (rel, lineno, qn, kind, descr, rc, [(f["rule"], f["message"][:80]) for f in findings][:2]))
+    finally:
+        shutil.rmtree(d, ignore_errors=True)
